@@ -2,13 +2,15 @@
    model SC.C16.Model (F32.v for the single-precision size), which the correspondence check ties to
    src/model_selection/{kfold,mod}.rs and `take` of src/linalg/mod.rs.
    `indices` is the index vector after the (optional) shuffle: theorems hold for EVERY rearrangement
-   of 0..n-1, the unshuffled case is `indices = seq 0 n`.  `mem i l` is membership as a boolean. *)
-From Coq Require Import List Arith Bool Permutation.
-From SC Require Import C16.Model C16.Proofs.
+   of 0..n-1, the unshuffled case is `indices = seq 0 n`.  `mem i l` is membership as a boolean.
+   The estimator (`fit`, `predict`, `score`) is universally quantified. *)
+From Coq Require Import List Arith Bool Permutation ZArith.
+From SC Require Import C16.Model C16.F32 C16.Proofs C16.ProofsTTS C16.ProofsCV C16.ProofsF32.
 Import ListNotations.
 
-(* k-fold: exactly k (train, test) pairs; the test sets partition 0..n-1; their sizes differ by at
-   most one; each train set is exactly the complement of its test set (in increasing order). *)
+(* k-fold, every n, every k >= 2, every permutation: exactly k (train, test) pairs; the test sets
+   partition 0..n-1; their sizes differ by at most one; each train set is exactly the complement of
+   its test set (listed in increasing order). *)
 Theorem C16_kfold_partition : forall n k indices, 2 <= k -> Permutation indices (seq 0 n) ->
   exists folds, kfold_split n k indices = Some folds /\
     length folds = k /\
@@ -17,8 +19,132 @@ Theorem C16_kfold_partition : forall n k indices, 2 <= k -> Permutation indices 
     (forall tr te, In (tr, te) folds -> tr = filter (fun i => negb (mem i te)) (seq 0 n)).
 Proof. exact kfold_partition. Qed.
 
+(* n_splits < 2 is rejected (the implementation panics) *)
+Theorem C16_kfold_rejects_small_k : forall n k indices, k < 2 -> kfold_split n k indices = None.
+Proof. exact kfold_split_small. Qed.
+
+(* without shuffling the test sets are consecutive blocks in order: block j starts at
+   j*(n/k) + min(j, n mod k) and has n/k (+1 for the first n mod k folds) elements; concatenated
+   in fold order they are 0,1,..,n-1 *)
+Theorem C16_kfold_blocks_unshuffled : forall n k, 2 <= k ->
+  exists folds, kfold_split n k (seq 0 n) = Some folds /\
+    length folds = k /\
+    concat (map snd folds) = seq 0 n /\
+    forall j, j < k ->
+      snd (nth j folds ([], [])) =
+      seq (j * (n / k) + Nat.min j (n mod k)) (n / k + (if j <? n mod k then 1 else 0)).
+Proof. exact kfold_blocks_unshuffled. Qed.
+
+(* train_test_split, any row type, any target type, every permutation, every admissible size:
+   the index vector is cut into test = first n_test entries and train = the rest (so the two parts
+   are disjoint and together all rows), every returned row/target is the input row/target of its
+   index (targets stay attached), and the (row, target) pairs of test ++ train are a permutation
+   of the input pairs. *)
+Theorem C16_tts_permutation : forall {R T} (dx : R) (dy : T) (x : list R) (y : list T) n_test indices,
+  length x = length y -> Permutation indices (seq 0 (length y)) -> 1 <= n_test <= length y ->
+  exists te tr x_train x_test y_train y_test,
+    train_test_split x y true n_test indices = Some (x_train, x_test, y_train, y_test) /\
+    te ++ tr = indices /\ length te = n_test /\ length tr = length y - n_test /\
+    NoDup (te ++ tr) /\
+    x_test = map (fun i => nth i x dx) te /\ y_test = map (fun i => nth i y dy) te /\
+    x_train = map (fun i => nth i x dx) tr /\ y_train = map (fun i => nth i y dy) tr /\
+    Permutation (combine x_test y_test ++ combine x_train y_train) (combine x y).
+Proof. intros R T. exact (@tts_permutation R T). Qed.
+
+(* shuffling off: the test part is the leading n_test rows in original order, train the rest *)
+Theorem C16_tts_unshuffled : forall {R T} (x : list R) (y : list T) n_test,
+  length x = length y -> 1 <= n_test <= length y ->
+  train_test_split x y true n_test (seq 0 (length y)) =
+  Some (skipn n_test x, firstn n_test x, skipn n_test y, firstn n_test y).
+Proof. intros R T. exact (@tts_unshuffled R T). Qed.
+
+(* the size: whenever train_test_split (with the binary32 arithmetic of F32.v, test_size given by
+   its bit pattern) returns, test_size passed the range test, the test part has exactly
+   trunc((n as f32) * test_size) rows (binary32 product, round to nearest even), which is between 1
+   and n, and the train part has the rest *)
+Theorem C16_tts_size : forall {R T} (x : list R) (y : list T) bits indices x_train x_test y_train y_test,
+  Permutation indices (seq 0 (length y)) ->
+  train_test_split_f32 x y bits indices = Some (x_train, x_test, y_train, y_test) ->
+  let nt := n_test_f32 (length y) (f32_of_bits bits) in
+  ts_ok_f32 (f32_of_bits bits) = true /\ length x = length y /\ 1 <= nt <= length y /\
+  length x_test = nt /\ length y_test = nt /\
+  length x_train = length y - nt /\ length y_train = length y - nt.
+Proof. intros R T. exact (@tts_size R T). Qed.
+
+(* FINDING (reported): test_size in (0,1] does not guarantee n_test <= n.  For n = 16777219 > 2^24
+   `n as f32` rounds up to 16777220, and with test_size = 1.0 the model (and the implementation:
+   `indices[n_test..n]`) fails instead of returning a split. *)
+Theorem C16_tts_size_overshoot_witness :
+  exists (n : N) (bits : Z),
+    ts_ok_f32 (f32_of_bits bits) = true /\
+    (Z.of_N n < n_test_f32_Z (Z.of_N n) (f32_of_bits bits))%Z.
+Proof. exact tts_size_overshoot_witness. Qed.
+
+(* cross_val_predict, every estimator, every permutation: whenever it returns, the result has one
+   entry per sample, and for every sample i there is exactly the fold (tr, te) whose test set holds
+   i (at position pos): the model m that produced the value stored at position i was fitted on
+   `take x tr`, `take y tr` with i NOT in tr, was asked to predict `take x te`, and the stored value
+   is its pos-th prediction — no sample is predicted by a model that has seen it, and every
+   held-out prediction lands at the sample's original position. *)
+Theorem C16_cv_predict_no_leakage :
+  forall {R T M : Type} (zero : T) (fit : list R -> list T -> option M)
+         (predict : M -> list R -> option (list T))
+         n k indices (x : list R) (y : list T) out,
+    2 <= k -> length x = n -> Permutation indices (seq 0 n) ->
+    cross_val_predict zero fit predict k indices x y = Some out ->
+    exists folds, kfold_split n k indices = Some folds /\
+      length out = length y /\
+      forall i, i < n ->
+        exists tr te m preds pos,
+          In (tr, te) folds /\ nth_error te pos = Some i /\ ~ In i tr /\
+          fold_run fit predict x y tr te m preds /\
+          exists v, nth_error preds pos = Some v /\ nth_error out i = Some v.
+Proof. intros R T M. exact (@cv_predict_no_leakage R T M). Qed.
+
+(* cross_validate: k test scores and k train scores; score j comes from one model fitted on exactly
+   the training rows of fold j and scored on exactly its held-out rows (resp. its training rows);
+   the two row sets of a fold are disjoint. *)
+Theorem C16_cv_scores_out_of_fold :
+  forall {R T M Sc : Type} (fit : list R -> list T -> option M)
+         (predict : M -> list R -> option (list T)) (score : list T -> list T -> Sc)
+         n k indices (x : list R) (y : list T) test_score train_score,
+    2 <= k -> length x = n -> Permutation indices (seq 0 n) ->
+    cross_validate fit predict score k indices x y = Some (test_score, train_score) ->
+    exists folds, kfold_split n k indices = Some folds /\
+      length test_score = k /\ length train_score = k /\
+      forall j tr te, nth_error folds j = Some (tr, te) ->
+        (forall i, In i te -> ~ In i tr) /\
+        exists s_train s_test,
+          nth_error train_score j = Some s_train /\ nth_error test_score j = Some s_test /\
+          fold_scores fit predict score x y tr te s_train s_test.
+Proof. intros R T M Sc. exact (@cv_scores_out_of_fold R T M Sc). Qed.
+
+(* ---------- the hypotheses are satisfiable / the functions do return on real instances ---------- *)
 Example C16_kfold_instance :
   kfold_split 7 3 [3; 1; 6; 0; 2; 5; 4] =
   Some [([0; 2; 4; 5], [1; 3; 6]); ([1; 3; 4; 5; 6], [0; 2]); ([0; 1; 2; 3; 6], [4; 5])]
   /\ Permutation [3; 1; 6; 0; 2; 5; 4] (seq 0 7).
 Proof. split; [reflexivity|]. apply perm_check_sound. reflexivity. Qed.
+
+Example C16_tts_instance :
+  train_test_split_f32 [10; 11; 12; 13; 14] [20; 21; 22; 23; 24] 0x3F000000 (* 0.5 *) [4; 2; 0; 1; 3]
+  = Some ([10; 11; 13], [14; 12], [20; 21; 23], [24; 22])
+  /\ Permutation [4; 2; 0; 1; 3] (seq 0 5).
+Proof. split; [vm_compute; reflexivity|]. apply perm_check_sound. reflexivity. Qed.
+
+Example C16_tts_size_instance :
+  n_test_f32 123 (f32_of_bits 0x3E4CCCCD) = 24 /\ ts_ok_f32 (f32_of_bits 0x3E4CCCCD) = true /\
+  n_test_f32 10 (f32_of_bits 0x3F333333) = 7.
+Proof. exact tts_size_instance. Qed.
+
+(* an estimator that remembers its training rows and predicts (sum of training rows + row):
+   cross_val_predict and cross_validate return on it *)
+Example C16_cv_instance :
+  let fit := fun (rows : list nat) (ys : list nat) => Some (list_sum rows + list_sum ys) in
+  let predict := fun (m : nat) (rows : list nat) => Some (map (fun r => m + r) rows) in
+  let score := fun (a b : list nat) => list_sum a + list_sum b in
+  cross_val_predict 0 fit predict 2 [2; 0; 3; 1; 4] [0; 1; 2; 3; 4] [10; 10; 10; 10; 10]
+    = Some [24; 28; 26; 30; 31] /\
+  cross_validate fit predict score 2 [2; 0; 3; 1; 4] [0; 1; 2; 3; 4] [10; 10; 10; 10; 10]
+    = Some ([111; 98], [74; 111]).
+Proof. split; vm_compute; reflexivity. Qed.
